@@ -44,9 +44,8 @@ def spec_taper(mesh, lam, sym, rap):
 
 def spec_chord(mesh, c, rap):
     ax = ref_axis(mesh, rap)
-    out = mesh.copy()
-    out[:, :, 0] = ax[None, :, 0] + (mesh[:, :, 0] - ax[None, :, 0]) * c[None, :]
-    return out
+    # similarity about the reference-axis point of each section (identical to an x-only scaling when the chords are parallel to x)
+    return ax[None] + (mesh - ax[None]) * c[None, :, None]
 
 
 def spec_sweep(mesh, deg, sym):
@@ -158,8 +157,15 @@ def cases(tier, seed):
                 kind = str(rng.choice(["flat", "dihedral", "displaced_xz", "flat"]))
                 if dv == "taper" and rep % 2 == 1 and half == "left":
                     kind = "displaced_y"  # a surface that does not touch the symmetry plane
+                if dv in ("taper", "chord") and rep % 2 == 0:
+                    # chords that are not parallel to x: scaling about the reference axis acts on all three coordinates of the chord vector
+                    # (reference axis kept level - camber, or washout about the axis itself - so that the recorded Rotate finding
+                    # C13/rotate_x_nonflat_chord does not enter)
+                    kind = ["cambered", "pretwisted"][(rep // 2 + (half == "left")) % 2]
                 spec = base_spec(rng, kind, half)
                 rap = raps[int(rng.integers(len(raps)))] if rep % 2 else [0.0, 0.25, 1.0][(rep // 2) % 3]
+                if kind == "pretwisted":
+                    rap = 0.25  # the harness mesh is washed out about its quarter-chord line
                 ncp = int(rng.integers(1, 7))
                 out.append(dict(kind="single", dv=dv, mesh_kind=kind, mesh=spec, sym=(half == "left"), rap=rap, ncp=ncp, val=rand_vals(rng, dv, ncp, spec),
                                 rap_key=bool(rap != 0.25 or rng.integers(2))))
@@ -200,7 +206,7 @@ def cases(tier, seed):
     for k in range(n):
         half = "left" if k % 2 else "full"
         # a varying z shear gives the reference axis dihedral, so cambered chords would hit the rotate_x finding
-        spec = base_spec(rng, str(rng.choice(["flat", "dihedral"] if k % 3 == 2 else ["flat", "cambered", "dihedral"])), half)
+        spec = base_spec(rng, str(rng.choice(["flat", "dihedral"] if k % 3 >= 1 else ["flat", "cambered", "dihedral"])), half)
         ncp = int(rng.integers(2, 6))
         out.append(dict(kind="shear_var", axis=int(k % 3), mesh=spec, sym=(half == "left"), ncp=ncp, cps=[float(x) for x in np.round(rng.uniform(-1, 1, ncp), 3)]))
     return out
@@ -310,6 +316,8 @@ def run_single(c, o):
         exp = spec_chord(mesh, np.full(mesh.shape[1], c["val"][0]), rap)
         o.close("chord/scaling_about_axis", out, exp, rtol=T, scale=scale)
         o.close("chord/axis_fixed", ax1, ax0, rtol=T, scale=scale)
+        # the chord itself (distance leading edge - trailing edge, whatever its direction) is what is scaled
+        o.close("chord/length_ratio", np.linalg.norm(out[-1] - out[0], axis=1) / np.linalg.norm(mesh[-1] - mesh[0], axis=1), np.full(mesh.shape[1], c["val"][0]), rtol=1e-11)
     elif dv == "twist":
         th = c["val"][0]
         ch0 = np.linalg.norm(mesh[-1] - mesh[0], axis=1)
@@ -407,6 +415,14 @@ def run_shear_var(c, o):
     o.close("shear/pure_translation", out, spec_shear(mesh, c["axis"], dist), rtol=1e-12, scale=np.abs(mesh).max(), what="varying %s" % name)
     o.true("shear/distribution_within_cp_range", bool(dist.min() >= min(c["cps"]) - 1e-12 and dist.max() <= max(c["cps"]) + 1e-12),
            "B-spline distribution leaves the convex hull of its control points")
+    if c["axis"] == 1 and c["mesh"].get("camber", 0.0) == 0.0:
+        # a varying y shear together with dihedral: z rises linearly with the distance from the root of the mesh that is returned
+        # (flat chords only, so that the recorded Rotate finding C13/rotate_x_nonflat_chord does not enter)
+        for deg in ([8.0, -5.0, 12.5][len(c["cps"]) % 3], -3.0):
+            s2 = surface_for(dict(c, rap=0.25, rap_key=False), mesh, {name: c["cps"], "dihedral": deg})
+            out2 = np.array(run_geometry(s2).get_val("mesh"))
+            o.close("combo/dihedral_after_varying_yshear", out2, spec_dihedral(out, deg, c["sym"]), rtol=1e-11, scale=np.abs(mesh).max(),
+                    what="dihedral %g deg with varying yshear_cp: z must equal tan(dihedral) x |y - y_root| of the returned mesh" % deg, tags=["dihedral", "yshear_var"])
     o.nontrivial = True
 
 
